@@ -110,6 +110,16 @@ fn single_ref(ty: &Ty, ctx: &HashMap<String, PatResult>, pat: &str, idx: u64, de
 const MONTHS: &[(&str, i64)] = &[("jan", 1), ("feb", 2), ("mar", 3), ("apr", 4), ("may", 5), ("jun", 6), ("june", 6), ("jul", 7), ("july", 7), ("aug", 8), ("sep", 9), ("sept", 9), ("oct", 10), ("nov", 11), ("dec", 12)];
 
 fn timestamp_from_groups(col: &ColSpec, refs: &[(String, u64)], ctx: &HashMap<String, PatResult>) -> Accept {
+    // an eighth, ninth ... listed group has no position of a timestamp to fill: what such a group does (ignored, or no
+    // value when it is absent / not a number) is not stated; the first seven are judged as always, with "no value" also accepted
+    if refs.len() > 7 {
+        let mut a = timestamp_from_groups(col, &refs[..7], ctx);
+        let d = default_of(col);
+        if !a.vals.iter().any(|o| o.same(&RV::Null, 0.0)) { a.vals.push(RV::Null); }
+        if !a.vals.iter().any(|o| o.same(&d, 0.0)) { a.vals.push(d); }
+        a.situation = "more-than-seven-groups";
+        return a;
+    }
     let default = default_of(col);
     let micro = col.modifier == Modifier::Microseconds;
     // year, month, day, hour, minute, second, fraction
